@@ -464,6 +464,8 @@ func runC16(c *Ctx) {
 		c.check(okHas, "error-mapping.has", h.ID, p.Pos(h.Decl.Pos()), "Has of a missing key is (false, nil)", "localfs Has no longer returns (false, nil) for a missing key")
 		checkNoSwallow(c, "error-mapping.has", h, func(id string) bool { return strings.HasSuffix(id, "afero.Fs.Stat") }, []string{"os.IsNotExist"})
 	}
+	checkReadCountConsumed(c, "put.count-before-eof")
+	checkLocalfsDeleteOnlyKey(c, "delete.only-the-key")
 }
 
 // shortCircuitProtects: in `err != nil || <uses info>` (or `err == nil && <uses info>`) the use of info is evaluated
@@ -779,6 +781,7 @@ func runC19(c *Ctx) {
 		})
 		c.check(okMax, "lookback.max-capped", lt.ID+":passed", p.Pos(lt.Decl.Pos()), "the (capped) max is the page size of the listing", "the capped max is no longer the page size of the listing")
 	}
+	checkWALDecoderAcceptsWhatAddStores(c, "codec-pairing.decoder-accepts")
 }
 
 func enumPutSitesAny(p *Prog, pkgs ...string) []putSite { return enumPutSites(p, pkgs...) }
